@@ -181,7 +181,8 @@ PROPS["C05"] = dict(
                   dict(harness="variant", build="plain", runs=200, offset=1440000, valgrind=True, workers=8, wall_cap=1200)],
     ),
     rule=("a case is one execution of a seeded history (1-15 operations) over three variant<int, NC, TC, TM, TM2, std::string> objects (NC: nothrow copy+move, TC: throwing copy, TM/TM2: throwing move; "
-          "all lifetime-tracked), one variant over closure wrappers (xget) and one with 34 alternatives. Random batches attach 'throw at the k-th constructor/assignment of this step' to steps; "
+          "all lifetime-tracked), one variant over closure wrappers (xget) and one with 34 alternatives; two further configurations run the same kind of history over variant<int, DA, DB> "
+          "(lifetime-registered alternatives with defaulted, i.e. trivial, copy/move assignment) and variant<int, double, TT> (every alternative trivially destructible, TT's constructors throw, doubles include NaN and signed zeros). Random batches attach 'throw at the k-th constructor/assignment of this step' to steps; "
           "enumerate batches first run each history fault-free, counting the fault points reached in every step, then re-execute it once per (step, k) with exactly that throw injected. "
           "Oracles after every step: lifetime registry (construct once, no use after destruction, destroy once, live objects == objects held), every observer "
           "(index, valueless_by_exception, holds_alternative, get<I>, get<T>, get_if, visit) agrees with the model; without a throw the model is std::variant's result; "
@@ -189,7 +190,8 @@ PROPS["C05"] = dict(
           "Non-trivial: at least two state-changing steps and, if a fault is attached, it fired. Distinct: distinct run digests."),
     probes=["valueless_reached", "valueless_by_emplace", "valueless_by_assignment", "valueless_by_swap", "valueless_moved_or_copied", "valueless_assigned_from",
             "valueless_compared", "valueless_visited", "swap_threw", "swap_with_valueless", "same_index_assignment_threw", "self_assignment", "self_swap",
-            "three_variant_visit", "more_than_32_alternatives_dispatch", "constructor_threw", "moved_from_alternative"],
+            "three_variant_visit", "more_than_32_alternatives_dispatch", "constructor_threw", "moved_from_alternative",
+            "unordered_values_compared", "assignment_switching_alternative_defaulted_or_trivial_set"],
     components=dict(real=["include/xtl/xvariant_impl.hpp (mpark variant: construction, assignment, emplace, swap, relational operators, switch-based visitation, hash)", "include/xtl/xvariant.hpp (xget)"],
                     stub=["lifetime-tracked alternative types with a fault point in every constructor and assignment", "recording visitors", "dirty, red-zoned arena memory under every variant"]),
     assumptions=["the table-based visitation path is compiled out on GCC/Clang in C++14 (MPARK_VARIANT_SWITCH_VISIT) and cannot be reached here",
